@@ -67,6 +67,7 @@ def gen_ir(seed):
         for _ in range(rng.range(0, 2)):
             edges[rng.below(n)].append(rng.below(n))
     mods = []
+    core_k = rng.below(n) if rng.chance(0.15) else None
     for k in range(n):
         stmts = []
         targets = rng.shuffle(sorted(set(edges[k]))) if edges[k] else []
@@ -110,6 +111,8 @@ def gen_ir(seed):
                 fixed.append(st)
         stmts = fixed
         path = ("lib/m%d" % k) if rng.chance(0.25) else ("m%d" % k)
+        if k == core_k:
+            path = "core"       # an ordinary name for a module of one's own
         lazy = rng.below(n) if rng.chance(0.6) else None
         # file-system behaviour for this module's reads
         reads = []
@@ -129,7 +132,7 @@ def gen_ir(seed):
             reads = [["notfound"]] * 400      # permanently missing
         else:
             reads = [["ioerr", rng.choice(IO_REASONS)], ["garbled", 0], ["trunc", rng.below(len(stmts) + 1)]]
-        mods.append({"path": path, "bind": "m%d" % k, "stmts": stmts, "lazy": lazy, "reads": reads})
+        mods.append({"path": path, "bind": "core" if path == "core" else "m%d" % k, "stmts": stmts, "lazy": lazy, "reads": reads})
     return {"mods": mods, "steps": rng.range(6, 40), "sites": sites[0], "shape": shape}
 
 
@@ -151,6 +154,7 @@ def module_text(ir, k, nstmts=None):
     out.append("var store = [0]; var pushit = store.push;")
     out.append("#[constructor(new)] class Acc { fn add(self, x) { self.n = self.n + x; return self.n; } } var acc0 = Acc.new(); acc0.n = 0; var addit = acc0.add;")
     out.append("fn getg() { return gv; }")
+    out.append("fn pipeline() { return [1, 2, 3].iter().map(|x| { return x + gv - gv + 1; }).filter(|x| { return x > 2; }).collect(); }")
     # a second global under a name that differs per module (so that no coincidence of name hashes can hide a stale look-up)
     out.append("var aux%d = %d; fn getaux() { return aux%d; }" % (k, k * 3, k))
     out.append("fn setg(x) { gv = x; return gv; }")
@@ -270,7 +274,7 @@ def render(ir):
     e('    if type(r) == String { print(("ev", "fib", k, r)); } else { print(("ev", "fib", k, r != nil)); record(k, r); }')
     e("  } else if a == 8 {")
     e("    if mods[k] != nil {")
-    e('      print(("ev", "iso", k, mods[k].peek(), mods[k].builtins(), mods[k].own, mods[k].peek_class(), mods[k].peek_fn(), mods[k].shadowed(), mods[k].pushit(7).len(), mods[k].addit(2), mods[k].Acc.new() != nil, same_builtins(mods[k].builtin_classes()), mods[k].builtin_fns(), mods[k].assigned() == BuiltInMethod, mods[k].assigned() == 7000 + k));')
+    e('      print(("ev", "iso", k, mods[k].peek(), mods[k].builtins(), mods[k].own, mods[k].peek_class(), mods[k].peek_fn(), mods[k].shadowed(), mods[k].pushit(7).len(), mods[k].addit(2), mods[k].Acc.new() != nil, same_builtins(mods[k].builtin_classes()), mods[k].builtin_fns(), mods[k].assigned() == BuiltInMethod, mods[k].assigned() == 7000 + k, mods[k].pipeline(), type));')
     e('      try { mods[k].MainOnlyClass; print(("ev", "attr-leak", k)); } catch e { print(("ev", "attr2", k, type(e))); }')
     e('      try { mods[k].no_such_attribute; } catch e { print(("ev", "attr", k, type(e))); }')
     e('      try { print(("ev", "leak", own)); } catch e { print(("ev", "noleak", type(e))); }')
@@ -284,7 +288,10 @@ def render(ir):
     e("  }")
     e("}")
     e('print(("ev", "end", gv));')
-    return "\n".join(out) + "\n"
+    # the main script also rebinds `type` (it keeps the built-in under another name for its own use): what modules and the core
+    # library do must not depend on main's globals
+    text = "\n".join(out) + "\n"
+    return "var ty = type;\nvar type = 4243;\n" + text.replace("type(", "ty(")
 
 
 def fs_of(ir):
@@ -532,7 +539,7 @@ def model(ir, tape, faults, chooser=None):
                     ev.append([s("iso"), num(k), cls("NameError"), tup(b(True), num(2), num(2), num(4)), num(k),
                                cls("NameError"), cls("NameError"), tup(num(5000 + k), num(6000 + k)),
                                num(1 + isos[k]), num(2 * isos[k]), b(True), num(2626 if k % 2 == 0 else 2526), tup(b(True), b(True), b(True), b(True), b(True)),
-                               b(k % 2 == 0), b(k % 2 == 1)])
+                               b(k % 2 == 0), b(k % 2 == 1), {"v": [num(3), num(4)]}, num(4243)])
                     ev.append([s("attr2"), num(k), cls("AttributeError")])
                     ev.append([s("attr"), num(k), cls("AttributeError")])
                     ev.append([s("noleak"), cls("NameError")])
